@@ -1,3 +1,4 @@
 import PmtilesModel.Props.C01
 import PmtilesModel.Props.C02
 import PmtilesModel.Obligations.C02
+import PmtilesModel.Props.C03
